@@ -367,6 +367,15 @@ Fixpoint send_model (rs : list attempt) (stop : option nat) (tail : send_end) (s
       end
   end.
 
+(* default_batcher.go refCountDone / multiDone: a stored request exported in several pieces (max_size
+   split) completes once, with the multierr of all piece errors; experr.IsShutdownErr of that error is
+   true iff SOME piece was interrupted by shutdown, it is nil iff every piece succeeded. *)
+Definition is_shutdown_outcome (o : outcome) : bool := match o with OShutdown => true | _ => false end.
+Definition is_failed_outcome (o : outcome) : bool := match o with OFailed => true | _ => false end.
+Definition combine_outcomes (l : list outcome) : outcome :=
+  if existsb is_shutdown_outcome l then OShutdown
+  else if existsb is_failed_outcome l then OFailed else OOk.
+
 (* func (pq) onDone *)
 Definition onDone (c : cfg) (v : vol) (index : N) (elSize : Z) (o : outcome) : act vol :=
   let v1 := set_q v (Z.max 0 (qsize v - elSize)) in
